@@ -247,7 +247,8 @@ def sound_job(stride):
     return path
 
 
-def parload_job(lens, stride=1, hint='none', atoms=None, frame_for=None, as_args=False):
+def parload_job(lens, stride=1, hint='none', atoms=None, frame_for=None, as_args=False, strides=None):
+    # strides: one stride PER FILE, passed in the per-file form args=[{'stride': s0}, {'stride': s1}, ...] (None entry = no stride key)
     lens = list(lens)
 
     def setup(sym):
@@ -276,11 +277,14 @@ def parload_job(lens, stride=1, hint='none', atoms=None, frame_for=None, as_args
         if frame_for is not None:
             args = [dict(kw, frame=1) if i == frame_for else dict(kw) for i in range(len(files))]
             kw = {}
+        elif strides is not None:
+            args = [dict(kw, **({} if s_ is None else {'stride': s_})) for s_ in strides]
+            kw = {}
         elif as_args:
             # the per-file form args=[{...}, ...] (what load_trajectory_as_striped and cluster/util.py pass) instead of keyword arguments
             args = [dict(kw) for _ in files]
             kw = {}
-        true_l = [1 if (frame_for == i) else len(range(0, n, stride)) for i, n in enumerate(lens)]
+        true_l = [1 if (frame_for == i) else len(range(0, n, (strides[i] or 1) if strides is not None else stride)) for i, n in enumerate(lens)]
         lh = None
         if hint == 'right':
             lh = list(true_l)
@@ -292,7 +296,7 @@ def parload_job(lens, stride=1, hint='none', atoms=None, frame_for=None, as_args
     def expected(data):
         out = []
         for i, x in enumerate(data):
-            y = x[1:2] if frame_for == i else x[::stride]
+            y = x[1:2] if frame_for == i else x[::((strides[i] or 1) if strides is not None else stride)]
             if atoms is not None:
                 y = y[:, list(atoms)]
             out.append(y)
@@ -484,6 +488,9 @@ def jobs(tier):
     for lens in ((3,), (2,), (3, 2)):
         add('parload_job', 'parload[%s,stride=2,options per file (args=)]' % list(lens), lens=lens, stride=2, as_args=True)
     add('parload_job', 'parload[[3],atoms=[1],options per file (args=)]', lens=(3,), atoms=[1], as_args=True)
+    # a different stride for every file (args=[{'stride': 2}, {'stride': 1}, ...]; an entry without a stride key)
+    for lens, sts in (((3, 2), (2, 1)), ((3, 3), (1, 2)), ((4, 2, 4), (2, 1, 3)), ((3, 2), (2, None))):
+        add('parload_job', 'parload[%s,strides per file %s]' % (list(lens), list(sts)), lens=lens, strides=sts)
     add('parload_job', 'parload[[3],stride=2,hint=right,options per file (args=)]', lens=(3,), stride=2, hint='right', as_args=True)
     for kind in ('npy', 'h5'):
         for lens in (((2,), (3, 2), (1, 3, 2)) if q else ((2,), (3, 2), (1, 3, 2), (4, 1), (2, 2, 2), (1, 1, 5, 2))):
